@@ -54,6 +54,8 @@ func materialise(ents []entry) (root string, err error) {
 			err = os.Symlink(filepath.Join(root, "tdir"), p)
 		case 'x':
 			err = os.Symlink(filepath.Join(root, "does-not-exist"), p)
+		case 'v':
+			err = os.Symlink("/dev/null", p) // a link to something that is neither a file nor a directory
 		default:
 			err = os.WriteFile(p, nil, 0o644)
 		}
@@ -315,13 +317,16 @@ func genEntries(r *Rand, adversarial bool, base, ext string) []entry {
 			if r.Chance(1, 8) {
 				kind = 'l'
 			}
+			if r.Chance(1, 25) {
+				kind = 'v'
+			}
 			add(b+num+e, kind)
 		}
 	}
 	extras := []string{"readme", ".hidden", ".h.1.exr", "sub", "sub2.d", "123", "a b.txt", "x#y", "f@", "q%04d.e", "nl\nname.1.x", "-0", "z.-0.e"}
 	for j := r.Range(0, 4); j > 0; j-- {
 		n := r.Pick(extras)
-		kind := byte("ffffdlLx"[r.Intn(8)])
+		kind := byte("ffffdlLxv"[r.Intn(9)])
 		if r.Chance(1, 3) {
 			kind = 'f'
 		}
@@ -344,7 +349,38 @@ func genEntries(r *Rand, adversarial bool, base, ext string) []entry {
 	return ents
 }
 
+// disk.root <mask> <style> <hex spelling of "/">: the real root directory is scanned; its content is
+// not known to the model, so only the shape of the results is observed: every sequence lies
+// directly under "/" (Dirname "/", no doubled separator)
+func opDiskRoot(f []string) string {
+	mask := atoi(f[1])
+	arg := unhx(f[3])
+	under := true
+	seqs, err := fileseq.FindSequencesOnDisk(arg, listOpts(mask, f[2], mask%2 == 1)...)
+	if err == nil {
+		for _, s := range seqs {
+			p := s.Index(0)
+			if s.Dirname() != "/" || !strings.HasPrefix(p, "/") || strings.HasPrefix(p, "//") || strings.Contains(p[1:], "/") {
+				under = false
+			}
+		}
+	}
+	if lf, err := fileseq.ListFiles(arg); err == nil {
+		for _, s := range lf {
+			if s.Dirname() != "/" {
+				under = false
+			}
+		}
+	}
+	return "under=" + showBool(under)
+}
+
+func init() { operations["disk.root"] = opDiskRoot }
+
 func genDiskScan(r *Rand, n int, thorough bool, emit func(string)) {
+	for _, sp := range []string{"/", "//", "/./", "/tmp/..", "/../"} {
+		emit(fmt.Sprintf("disk.root %d %s %s", r.Intn(4), r.Pick([]string{"1", "4"}), hx(sp)))
+	}
 	args := []string{"/T/d", "/T/d/", "d", "./d", "d/", "./d/", ".", "/T/./d", "/T/d/../d", "/T//d"}
 	for i := 0; i < n; i++ {
 		ents := genEntries(r, false, "", "")
